@@ -23,12 +23,12 @@ Section P.
     induction f as [|f IH]; intros static uv n Hf; [lia|]. cbn [plookup].
     destruct (mem_fc n uv) eqn:Hm; cbn [negb]; [|exists None, uv; split; [reflexivity | lia]].
     pose proof (remove_length_lt _ _ Hm) as Hlt.
-    match goal with |- context [first_found ?st _ _] =>
-      destruct (first_found_total st (List.length (remove_fc n uv))) with (ps := parents_of m n) (uv := remove_fc n uv) as [r [uv' [E Hl]]] end.
+    destruct (first_found_total (lstep has builtin (plookup has builtin f m) static) (List.length (remove_fc n uv)))
+      with (ps := parents_of m n) (uv := remove_fc n uv) as [r [uv' [E Hl]]].
     - intros p uv1 H1.
       assert (Hrec : forall st n', exists r uv', plookup has builtin f m st uv1 n' = Some (r, uv') /\ List.length uv' <= List.length uv1)
         by (intros; apply IH; lia).
-      destruct (pn_extend p).
+      unfold lstep. destruct (pn_extend p).
       + destruct (has (norm builtin (pn_node p)) false && static); [eexists _, uv1; split; [reflexivity | lia]|].
         destruct static; [apply Hrec | eexists _, uv1; split; [reflexivity | lia]].
       + destruct (pn_include p).
@@ -56,7 +56,7 @@ Section P.
     destruct (mem_fc n uv); cbn [negb]; [|discriminate].
     intros H. apply first_found_sound with (P := fun p x => In p (parents_of m n) /\ answers has builtin m static n x) in H.
     - destruct H as [p [_ [_ A]]]. exact A.
-    - intros p uv1 y uv2 Hp Hs. split; [exact Hp|].
+    - intros p uv1 y uv2 Hp Hs. split; [exact Hp|]. unfold lstep in Hs.
       destruct (pn_extend p) eqn:Ee.
       + destruct (has (norm builtin (pn_node p)) false && static) eqn:Eh.
         * inversion Hs; subst. apply andb_true_iff in Eh as [H1 H2]. subst static. apply a_extend; assumption.
@@ -70,3 +70,83 @@ Section P.
           -- eapply a_super_up; [exact Hp | exact Ee | exact Ei | exact (IH _ _ _ _ _ Hs)].
   Qed.
 End P.
+
+(* ---------------------------------------------------------------- C27: a class elsewhere does not interfere *)
+Section Decoy.
+  Variables (has : node -> bool -> bool) (builtin : list string).
+
+  Lemma parents_of_app m d x : ~ In x (map fst d) -> parents_of (m ++ d) x = parents_of m x.
+  Proof.
+    intros H. induction m as [|[k ps] r IH]; cbn [app parents_of].
+    - induction d as [|[k ps] r IHd]; [reflexivity|]. cbn [parents_of]. cbn [map fst] in H.
+      destruct (fc_eqb x k) eqn:E; [apply fc_eqb_eq in E; subst; exfalso; apply H; left; reflexivity|].
+      apply IHd. intro Hc. apply H. right. exact Hc.
+    - destruct (fc_eqb x k); [reflexivity | exact IH].
+  Qed.
+
+  Lemma first_found_ext {A} (s1 s2 : A -> list node -> option (option node * list node)) (Q : list node -> Prop) :
+    (forall p uv, Q uv -> forall r uv', s1 p uv = Some (r, uv') -> Q uv') ->
+    forall ps, (forall p uv, In p ps -> Q uv -> s1 p uv = s2 p uv) ->
+    forall uv, Q uv -> first_found s1 ps uv = first_found s2 ps uv.
+  Proof.
+    intros HQ ps; induction ps as [|p r IH]; intros He uv Hq; cbn [first_found]; [reflexivity|].
+    rewrite <- (He p uv (or_introl eq_refl) Hq).
+    destruct (s1 p uv) as [[[x|] uv1]|] eqn:E; try reflexivity.
+    apply IH; [intros q u Hq2 Hu; apply He; [right; exact Hq2 | exact Hu] | exact (HQ p uv Hq _ _ E)].
+  Qed.
+
+  Lemma first_found_uv_incl {A} (step : A -> list node -> option (option node * list node)) :
+    (forall p uv r uv', step p uv = Some (r, uv') -> incl uv' uv) ->
+    forall ps uv r uv', first_found step ps uv = Some (r, uv') -> incl uv' uv.
+  Proof.
+    intros Hs ps; induction ps as [|p q IH]; intros uv r uv'; cbn [first_found].
+    - intros H; inversion H; subst. apply incl_refl.
+    - destruct (step p uv) as [[[x|] uv1]|] eqn:E; [| |discriminate].
+      + intros H; inversion H; subst. exact (Hs _ _ _ _ E).
+      + intros H. eapply incl_tran; [exact (IH _ _ _ H) | exact (Hs _ _ _ _ E)].
+  Qed.
+
+  Lemma remove_incl n uv : incl (remove_fc n uv) uv.
+  Proof. intros x Hx. apply mem_fc_in. apply mem_fc_in in Hx. rewrite mem_remove in Hx. apply andb_true_iff in Hx; tauto. Qed.
+
+  Lemma lstep_incl rec static p uv1 r uv2 :
+    (forall st u n r u', rec st u n = Some (r, u') -> incl u' u) ->
+    lstep has builtin rec static p uv1 = Some (r, uv2) -> incl uv2 uv1.
+  Proof.
+    intros Hr. unfold lstep.
+    destruct (pn_extend p).
+    - destruct (has (norm builtin (pn_node p)) false && static); [intros E; inversion E; subst; apply incl_refl|].
+      destruct static; [apply Hr | intros E; inversion E; subst; apply incl_refl].
+    - destruct (pn_include p).
+      + destruct (has (norm builtin (pn_node p)) false && negb static); [intros E; inversion E; subst; apply incl_refl|].
+        destruct (negb static); [apply Hr | intros E; inversion E; subst; apply incl_refl].
+      + destruct (has (pn_node p) static); [intros E; inversion E; subst; apply incl_refl | apply Hr].
+  Qed.
+
+  Lemma plookup_uv_incl m f : forall static uv n r uv', plookup has builtin f m static uv n = Some (r, uv') -> incl uv' uv.
+  Proof.
+    induction f as [|f IH]; intros static uv n r uv'; cbn [plookup]; [discriminate|].
+    destruct (mem_fc n uv); cbn [negb]; [|intros H; inversion H; subst; apply incl_refl].
+    intros H. eapply incl_tran; [|apply (remove_incl n uv)].
+    eapply first_found_uv_incl; [|exact H].
+    intros p uv1 r1 uv2. apply lstep_incl. exact IH.
+  Qed.
+
+  (* classes and edges registered under nodes that the walk cannot meet change nothing *)
+  Theorem plookup_decoy m d f : forall static uv n,
+    (forall x, In x uv -> ~ In x (map fst d)) ->
+    plookup has builtin f (m ++ d) static uv n = plookup has builtin f m static uv n.
+  Proof.
+    induction f as [|f IH]; intros static uv n Hd; cbn [plookup]; [reflexivity|].
+    destruct (mem_fc n uv) eqn:Hm; cbn [negb]; [|reflexivity].
+    rewrite (parents_of_app m d n) by (apply Hd; apply mem_fc_in; exact Hm).
+    apply first_found_ext with (Q := fun u => forall x, In x u -> ~ In x (map fst d)).
+    - intros p u Hu r u' E x Hx. apply Hu.
+      exact (lstep_incl _ _ _ _ _ _ (plookup_uv_incl (m ++ d) f) E x Hx).
+    - intros p u _ Hu. unfold lstep.
+      destruct (pn_extend p); [destruct (has (norm builtin (pn_node p)) false && static); [reflexivity|]; destruct static; [apply IH; exact Hu | reflexivity]|].
+      destruct (pn_include p); [destruct (has (norm builtin (pn_node p)) false && negb static); [reflexivity|]; destruct (negb static); [apply IH; exact Hu | reflexivity]|].
+      destruct (has (pn_node p) static); [reflexivity | apply IH; exact Hu].
+    - intros x Hx. apply Hd. exact (remove_incl n uv x Hx).
+  Qed.
+End Decoy.
